@@ -479,11 +479,11 @@ contract(FS, "Skedder.addReadyTask", "C02", params=dict(self=Ref("Skedder"), tas
                   "tasker.status == 0"])                                         # STOPPED
 
 contract(FH, "House.orderTaskables", "C02", params=dict(self=Ref("HouseS")), modifies=["self.taskables"],
-         ensures=["concat3(self.taskables, self.fronts, self.mids, self.backs)", "fresh(self.taskables)",
-                  # the three blocks start where the statement puts them (quantifier-free instances of the line above)
+         ensures=[# the three blocks start where the statement puts them (quantifier-free instances of concat3 below)
                   "implies(len(self.fronts) > 0, self.taskables[0] is self.fronts[0])",
                   "implies(len(self.mids) > 0, self.taskables[len(self.fronts)] is self.mids[0])",
                   "implies(len(self.backs) > 0, self.taskables[len(self.fronts) + len(self.mids)] is self.backs[0])",
+                  "concat3(self.taskables, self.fronts, self.mids, self.backs)", "fresh(self.taskables)",
                   "self.taskables is not self.fronts and self.taskables is not self.mids and "
                   "self.taskables is not self.backs"])
 
